@@ -20,7 +20,7 @@ func init() {
 			"C03.gate: unmarshalText as a decision table over (first byte is 'v', formTag, formVersion) with the documented sentinels, and the four entry points pass the documented form sets. " +
 			"C03.num: captures 1,2,3 flow through strconv.ParseUint(·,10,64), the error is tested, the failing edge returns the matching sentinel, the value reaches the field of the same name; captures 4,5 reach PreRelease/Build through copying conversions; L(capture k) = 0|[1-9][0-9]* for k ≤ 3. " +
 			"C03.skel: the formatter's append sequence read off SSA is the regexp's concatenation skeleton with the same literals in the same order. " +
-			"C03.valid: L(sem.preRelease) / L(sem.build) equal the projections of captures 4 / 5; Valid skips the test exactly when the field is empty, the formatter omits exactly when empty. S-ERRZERO, S-WRAP, C18.L for package sem. C03.alias: the strings stored into Ver are copies or immutable string values and package sem (and internal) do not import unsafe — the yielded pre-release and build texts cannot be views of the caller's bytes (sem part of C17.alias).",
+			"C03.valid: L(sem.preRelease) / L(sem.build) equal the projections of captures 4 / 5; Valid skips the test exactly when the field is empty, the formatter omits exactly when empty. S-ERRZERO, S-WRAP, C18.L for package sem. C03.alias: the strings stored into Ver are copies or immutable string values and package sem (and internal) do not import unsafe — the yielded pre-release and build texts cannot be views of the caller's bytes (sem part of C17.alias). The skeleton of sem.pattern (content of captures abstracted) is ^<1>.<2>.<3>[-<4>][+<5>]$: the matched text is the concatenation of its captures and the literals the formatter writes between them.",
 		NotDecided:  []string{"stdlib summaries (ParseUint exact or error, AppendUint canonical decimal)", "texts longer than MaxInputLength (1024) are rejected by the limit, outside the statement"},
 		Assumptions: []string{"regexp executes the automaton regexp/syntax compiles", "strconv.ParseUint(s,10,64) is exact or fails; AppendUint prints canonical decimal"},
 		Technique:   "regular-language equality on DFAs (two independent oracles) + decision-table extraction + dataflow over go/ssa",
@@ -273,6 +273,10 @@ func ruleSemGate(e *Env, rule, numRule string) {
 			return 1, true, true
 		case as == "*sem.MaxInputLength" && bs == "0":
 			return 0, true, true
+		case as == "len(input)" && bs == "*sem.MaxInputLength":
+			return 1, true, true // a non-empty text against the disabled limit (0): longer, and not rejected
+		case as == "*sem.MaxInputLength" && bs == "len(input)":
+			return -1, true, true
 		case (strings.HasPrefix(as, "len((*regexp.Regexp).FindSubmatch(") || strings.HasPrefix(as, "len((*regexp.Regexp).FindStringSubmatch(")) && bs == "0":
 			return 1, true, true
 		case (strings.HasPrefix(as, "(*regexp.Regexp).FindSubmatch(") || strings.HasPrefix(as, "(*regexp.Regexp).FindStringSubmatch(")) && bs == "nil":
